@@ -687,6 +687,14 @@ def run_case(case):
     rows2 = [(0, 0), (1, 10), (2, math.nextafter(10, INF))]
     check_bool(ctx, 'dimension_pivot', dp, rows2[:2], True)
     check_bool(ctx, 'dimension_pivot', dp, rows2, False)
+    # a coordinate explicitly set to None never passes a numeric range
+    for j in range(len(rows) + 1):
+      rows3 = rows[:j] + [(99, 'dim', None)] + rows[j:]
+      check_bool(ctx, 'dimension_pivot', dp, rows3, False)
+      pat3 = list(pat[:j]) + [0] + list(pat[j:])
+      first3 = pat3.index(1) if 1 in pat3 else None
+      check_bool(ctx, 'consistent_end_pivot', ce, rows3,
+                 first3 is not None and all(pat3[first3:]))
   elif k == 'registry':
     name = case['name']
     from openhtf.core import measurements
